@@ -266,6 +266,8 @@ def in_block(ctx, e, n, region, shape, k):
 REGRESSION_LOG = []  # one record per regressor.fit: dict(X, y, w, alpha, coef, scaler)
 SCALER_LOG = []
 SCALE_CONTRACT = {"exact": True}
+SCALE_HINT = []  # ghost scale vectors a harness may supply (each checked against the contract)
+LAST_SCALE = {"scale": None}
 
 
 class StubStandardScaler:
@@ -286,15 +288,20 @@ class StubStandardScaler:
         n, m = X.shape
         eng = E.ENGINE
         scale = np.empty(m, dtype=object)
+        hint = SCALE_HINT.pop(0) if SCALE_HINT else None
         for j in range(m):
-            s = eng.new("scale")
-            eng.add(s > 0)
-            if SCALE_CONTRACT["exact"]:
-                col = [T(X[i, j]) for i in range(n)]
-                mean = sum(col) / n
-                var = sum((c - mean) * (c - mean) for c in col) / n
-                var = z3.simplify(var)
-                eng.add(z3.If(var == 0, s == 1, s * s == var))
+            col = [T(X[i, j]) for i in range(n)]
+            mean = sum(col) / n
+            var = sum((c - mean) * (c - mean) for c in col) / n
+            if hint is not None:
+                # ghost witness supplied by the harness: it must itself satisfy the contract (obligation)
+                s = T(hint[j])
+                eng.obligations.append(("ghost scale satisfies the StandardScaler contract (s > 0, s^2 = var or constant column)", z3.And(s > 0, z3.If(var == 0, s == 1, s * s == var))))
+            else:
+                s = eng.new("scale")
+                eng.add(s > 0)
+                if SCALE_CONTRACT["exact"]:
+                    eng.add(z3.If(z3.simplify(var) == 0, s == 1, s * s == z3.simplify(var)))
             scale[j] = SymReal(s)
         self.scale_ = scale
         out = X if not self.copy else X.astype(object).copy()
@@ -304,6 +311,7 @@ class StubStandardScaler:
             for i in range(n):
                 out[i, j] = out[i, j] / scale[j]
         SCALER_LOG.append({"input": Xo, "output": out, "scale": scale, "copy": self.copy})
+        LAST_SCALE["scale"] = scale
         return out
 
 
@@ -328,8 +336,15 @@ class _StubRegr:
                 raise ValueError("sample_weight.shape == %s, expected (%d,)!" % (sample_weight.shape, n))
         eng = E.ENGINE
         coef = np.empty(m, dtype=object)
+        ghost = LAST_SCALE["scale"]
+        free = []
         for j in range(m):
-            coef[j] = SymReal(eng.new("coef"))
+            q = SymReal(eng.new("coef"))
+            free.append(q)
+            # reparametrise the unknown as q * scale_j (scale_j > 0, so no generality is lost): verde's
+            # coef_ / scale_ then simplifies to q without a division
+            coef[j] = q * ghost[j] if ghost is not None and len(ghost) == m else q
+        LAST_SCALE["scale"] = None
         Xt = [[T(X[i, j]) for j in range(m)] for i in range(n)]
         yt = [T(v) for v in y]
         wt = [T(v) for v in sample_weight] if sample_weight is not None else [z3.RealVal(1)] * n
@@ -342,7 +357,7 @@ class _StubRegr:
             eqs.append(h)
             eng.add(h == 0)
         self.coef_ = coef
-        REGRESSION_LOG.append({"X": X, "y": y, "w": sample_weight, "alpha": self.alpha, "coef": coef, "normal_eqs": eqs, "kind": type(self).__name__})
+        REGRESSION_LOG.append({"X": X, "y": y, "w": sample_weight, "alpha": self.alpha, "coef": coef, "free": free, "normal_eqs": eqs, "kind": type(self).__name__})
         return self
 
 
@@ -373,6 +388,8 @@ def regression_globals():
 def reset_logs():
     del REGRESSION_LOG[:]
     del SCALER_LOG[:]
+    del SCALE_HINT[:]
+    LAST_SCALE["scale"] = None
     StubKDTree.instances[:] = []
     INTERP_LOG[:] = []
     _INTERP_IDS.clear()
